@@ -876,7 +876,65 @@ func ruleF7(c *Ctx) *RuleResult {
 			} else {
 				r.fail("fillSegmentQueue|eos-sentinel", c.Pos(call.Pos()), FuncName(fq), "the end-of-stream sentinel is pushed only for an ENDLIST playlist", "not guarded")
 			}
+			// ... and exactly when the segment just downloaded is the last one listed: Segments[len-1] == seg
+			segF := c.Field("pkg/playlist", "Media", "Segments")
+			lastConds := ifsOn(fq, func(v ssa.Value) bool {
+				bo, ok := v.(*ssa.BinOp)
+				if !ok || bo.Op != token.EQL {
+					return false
+				}
+				isLast := func(x ssa.Value) bool {
+					u, ok := x.(*ssa.UnOp)
+					if !ok {
+						return false
+					}
+					ia, ok := u.X.(*ssa.IndexAddr)
+					if !ok {
+						return false
+					}
+					if f, _ := loadedField(ia.X); f != segF {
+						return false
+					}
+					sub, ok := ia.Index.(*ssa.BinOp)
+					if !ok || sub.Op != token.SUB {
+						return false
+					}
+					k, isK := constInt(sub.Y)
+					return isK && k == 1 && isLenOfField(sub.X, segF)
+				}
+				return isLast(bo.X) || isLast(bo.Y)
+			})
+			if len(lastConds) > 0 && onlyIf(fq, call, lastConds, true) {
+				r.ok("fillSegmentQueue|eos-last-segment", c.Pos(call.Pos()), FuncName(fq), "the sentinel is pushed when the downloaded segment is the last one listed (`pl.Segments[len-1] == seg`)", "guarded by identity with the last listed segment")
+			} else {
+				r.fail("fillSegmentQueue|eos-last-segment", c.Pos(call.Pos()), FuncName(fq), "the sentinel is pushed when the downloaded segment is the last one listed (`pl.Segments[len-1] == seg`)",
+					"the condition is not the identity with the last listed segment: on some start paths the end of an ENDLIST playlist is not recognised and the client never reports ErrClientEOS (or reports it early)")
+			}
 		})
+		// distance from the live edge = len(segments) - index
+		if byID != nil {
+			okDist := false
+			allInstrs(byID, func(in ssa.Instruction) {
+				ret, ok := in.(*ssa.Return)
+				if !ok || len(ret.Results) != 3 {
+					return
+				}
+				if sub, ok := ret.Results[2].(*ssa.BinOp); ok && sub.Op == token.SUB {
+					if lc, ok := sub.X.(*ssa.Call); ok {
+						if b, ok := lc.Call.Value.(*ssa.Builtin); ok && b.Name() == "len" {
+							if _, isParam := lc.Call.Args[0].(*ssa.Parameter); isParam && sub.Y == ret.Results[1] {
+								okDist = true
+							}
+						}
+					}
+				}
+			})
+			if okDist {
+				r.ok("findSegmentWithID|distance", c.Pos(byID.Pos()), FuncName(byID), "the distance from the live edge is len(segments) - index", "third result")
+			} else {
+				r.fail("findSegmentWithID|distance", c.Pos(byID.Pos()), FuncName(byID), "the distance from the live edge is len(segments) - index", "third result has another form: the `more than five segments behind` limit is off by one")
+			}
+		}
 		// too-late check
 		maxD, _ := c.rootConstInt("clientLiveMaxDistanceFromEnd")
 		foundMax := false
